@@ -58,6 +58,7 @@ type FuncContract struct {
 	CallAsserts map[string][]*Clause // "callee#k" -> assertions checked right before that call site
 	Defines    []*LocalDef
 	CapturedRequires []*Clause // closures: facts about captured state, proved where the closure is created and assumed at its entry (stability until the call is an assumption)
+	LockProtocols []LockProtocol // local mutex protecting a local variable: two-state clause assumed at acquire (after havoc), asserted at release
 	readsState, readsStateKnown bool
 	EntryAssumes []*Clause // facts that define thread-local ghost state of the goroutine running this function (assumed at entry, never asserted at spawn)
 }
@@ -121,6 +122,14 @@ type GhostField struct {
 	TypeText string // pkg.Type
 	Name     string
 	SortText string
+}
+
+// LockProtocol: `lock_protocol <mutex var> guards <var> [label] expr`. expr is a two-state clause over the guarded variable:
+// old(...) is the state at the last release (when assumed at an acquire: other threads obey it) or at the matching acquire
+// (when asserted at a release: this thread obeys it).
+type LockProtocol struct {
+	Mutex, Var string
+	Clause     *Clause
 }
 
 type RelyDecl struct {
@@ -233,7 +242,7 @@ func readContractLines(path string, requirePrefix bool) ([]rawLine, string, erro
 var clauseKeywords = map[string]bool{"requires": true, "ensures": true, "invariant": true, "modifies": true, "pure": true,
 	"trusted": true, "may_panic": true, "loop": true, "func": true, "extern": true, "functype": true, "lemma": true,
 	"sort": true, "fn": true, "axiom": true, "ghost": true, "pkgframe": true, "rely": true, "guarded": true, "lockinv": true,
-	"acquires": true, "releases": true, "opaque": true, "reveal": true, "uses": true, "allocates": true, "noaxioms": true, "ghostset": true, "before_call": true, "macro": true, "define": true, "theorem": true, "entry_assume": true, "captured_requires": true, "crashinv": true, "note": true, "recfn": true, "props": true}
+	"acquires": true, "releases": true, "opaque": true, "reveal": true, "uses": true, "allocates": true, "noaxioms": true, "ghostset": true, "before_call": true, "macro": true, "define": true, "theorem": true, "entry_assume": true, "captured_requires": true, "lock_protocol": true, "crashinv": true, "note": true, "recfn": true, "props": true}
 
 func firstWord(s string) (string, string) {
 	s = strings.TrimSpace(s)
@@ -325,6 +334,17 @@ func parseDirectives(lines []rawLine, pkgPath string, spec *SpecSet, contracts m
 			}
 			curLoop = &LoopContract{}
 			cur.Loops[k] = curLoop
+		case "lock_protocol":
+			parts := strings.Fields(d.rest)
+			if cur == nil || len(parts) < 4 || parts[1] != "guards" {
+				return fmt.Errorf("%s:%d: lock_protocol <mutex> guards <var> [label] expr", d.file, d.line)
+			}
+			rest := strings.TrimSpace(strings.SplitN(d.rest, parts[2], 2)[1])
+			c, err := mkClause("lock_protocol", dir{"lock_protocol", rest, d.file, d.line})
+			if err != nil {
+				return err
+			}
+			cur.LockProtocols = append(cur.LockProtocols, LockProtocol{Mutex: parts[0], Var: parts[2], Clause: c})
 		case "captured_requires":
 			c, err := mkClause("captured_requires", d)
 			if err != nil {
